@@ -39,9 +39,21 @@ class Data2(Data):
         return 656.1
 
 
+def _desc(g):
+    if g is None:
+        return None
+    d = [type(g).__name__]
+    for a in ('height', 'radius'):
+        if hasattr(g, a):
+            d.append(round(getattr(g, a), 9))
+    for a in ('primitive_a', 'primitive_b'):
+        if hasattr(g, a):
+            d.append(_desc(getattr(g, a)))
+    return d
+
+
 def geom(b):
-    g = b.children[0] if b.children else None
-    return [type(g).__name__, getattr(g, 'height', None), getattr(g, 'radius', None)]
+    return _desc(b.children[0] if b.children else None)
 
 
 def attach_model():
